@@ -72,7 +72,7 @@ def L():
     from mesa.visualization.components.matplotlib_components import make_mpl_space_component
     from mesa.visualization.mpl_space_drawing import collect_agent_data, draw_property_layers, draw_space
 
-    # components that raise (expected: NotImplementedError, open finding V7) are logged with a traceback by reacton
+    # components that raise (expected: NotImplementedError) are logged with a traceback by reacton
     logging.getLogger("reacton").setLevel(logging.CRITICAL)
     mpaths = {}
     for m in MARKERS:
@@ -290,7 +290,8 @@ class SpaceImpl:
         for i in range(n):
             entries.append((self.fmt_loc(data["loc"][i]), to_tok("size", data["s"][i]), str(data["c"][i]),
                             str(data["marker"][i]), to_tok("zorder", data["zorder"][i])))
-        opt = {k: [to_tok(k, v) for v in data[k]] for k in ("alpha", "edgecolors", "linewidths")}
+        # one slot per agent (None: the agent's portrayal does not specify the key), or empty (fix V7)
+        opt = {k: ["None" if v is None else to_tok(k, v) for v in data[k]] for k in ("alpha", "edgecolors", "linewidths")}
         ign = []
         for wmsg in wl:
             txt = str(wmsg.message)
@@ -359,7 +360,7 @@ class SpaceImpl:
                 ec = ecs[i % len(ecs)] if len(ecs) else fc
                 etok = "-" if tuple(ec[:3]) == tuple(fc[:3]) else edge.get(tuple(ec[:3]), "?")
                 lw = lws[i % len(lws)] if len(lws) else 1.0
-                ltok = to_tok("linewidths", lw) if float(lw) in (2.0, 3.0) else "-"
+                ltok = "-" if float(lw) == 1.0 else to_tok("linewidths", lw)  # patch.linewidth: all MARKERS are filled
                 members.append((self.unloc(off[i][0], off[i][1]), stok, ctok, atok, etok, ltok))
             groups.append((mk, int(coll.get_zorder()), members))
         groups.sort(key=lambda g: (g[0], g[1]))
@@ -720,7 +721,7 @@ def gen_space(R, tier):
 
     policy = {}
     for key in ("alpha", "edgecolors", "linewidths"):
-        policy[key] = R.choices(["none", "all", "some"], [0.72, 0.2, 0.08])[0]
+        policy[key] = R.choices(["none", "all", "some"], [0.64, 0.18, 0.18])[0]
     must_dict = any(p == "all" for p in policy.values())
     ndict = R.randint(1 if must_dict else 0, 4)
     for r in range(ndict):
@@ -998,9 +999,20 @@ def oracle(sc, obs):
             if sorted(entries) != want:
                 bad.append(f"collect-one-entry-per-agent: entries {sorted(entries)} but the agents in the space demand {want}")
             for key in ("alpha", "edgecolors", "linewidths"):
-                wk = sorted(to_tok(key, d[key]) for _, _, d in snap if key in d)
-                if sorted(opt[key]) != wk:
-                    bad.append(f"collect-optional: {key} {opt[key]} but portrayals supplied {wk}")
+                # empty if no agent supplies the key; else one slot per agent, aligned with the entries:
+                # the value its portrayal returned, None otherwise
+                if not any(key in d for _, _, d in snap):
+                    if opt[key]:
+                        bad.append(f"collect-optional: {key} {opt[key]} but no portrayal supplied it")
+                    continue
+                if len(opt[key]) != len(entries):
+                    bad.append(f"collect-optional-length: {key} {opt[key]} has not one slot for each of the {len(entries)} agents")
+                    continue
+                wk = sorted((f"{loc[0]},{loc[1]}", to_tok("size", d["size"]) if "size" in d else s, str(d.get("color", c)),
+                             str(d.get("marker", mk)), str(d.get("zorder", z)),
+                             to_tok(key, d[key]) if key in d else "None") for _, loc, d in snap)
+                if sorted(e + (v,) for e, v in zip(entries, opt[key])) != wk:
+                    bad.append(f"collect-optional: {key} {opt[key]} along entries {entries} but the agents demand {wk}")
         elif kind == "draw":
             _, snap, groups, err, _hb, _ha = ev
             if err is not None:
